@@ -431,6 +431,86 @@ pub fn check(case: &Case, obs: &Observed) -> Option<(String, String)> {
     None
 }
 
+/// the transport fails while the application is closing the connection: the peer reads the client's
+/// close and then (0) drops the stream without answering, (1) answers with a close (control),
+/// (2) had dropped the stream before the close was written, (3) answers with a close that carries an
+/// error.  With `sessions` sessions begun (and left open) before.  Returns what `close()` returned.
+pub fn run_cut_during_close(variant: u8, sessions: usize) -> Result<String, String> {
+    let rt = paused_runtime();
+    rt.block_on(async move {
+        let (cio, pio) = tokio::io::duplex(1 << 16);
+        let mut peer = Peer::new(pio);
+        let client = tokio::spawn(async move {
+            let mut conn = Connection::builder().container_id("c14-close").open_with_stream(cio).await.map_err(|e| format!("open: {:?}", e))?;
+            let mut ss = vec![];
+            for _ in 0..sessions {
+                ss.push(Session::begin(&mut conn).await.map_err(|e| format!("begin: {:?}", e))?);
+            }
+            tokio::time::sleep(Duration::from_millis(20)).await;
+            let r = tokio::time::timeout(Duration::from_secs(10), conn.close()).await;
+            drop(ss);
+            Ok::<String, String>(match r {
+                Err(_) => "TIMEOUT".into(),
+                Ok(Ok(())) => "ok".into(),
+                Ok(Err(e)) => format!("err:{:?}", e),
+            })
+        });
+        peer.accept_open(&PeerOpen::default()).await.map_err(|e| format!("{:?}", e))?;
+        peer.recv_timeout = Duration::from_secs(3600);
+        let mut begun = 0;
+        while begun < sessions {
+            match peer.recv().await {
+                Ok(Incoming::Frame { channel, performative: Performative::Begin(_), .. }) => {
+                    let b = Begin { remote_channel: Some(channel), next_outgoing_id: 0, incoming_window: 1000, outgoing_window: 1000, handle_max: Handle(100), offered_capabilities: None, desired_capabilities: None, properties: None };
+                    peer.send(10 + channel, Performative::Begin(b), &[]).await.map_err(|e| format!("{:?}", e))?;
+                    begun += 1;
+                }
+                Ok(_) => {}
+                Err(e) => return Err(format!("peer: {:?}", e)),
+            }
+        }
+        if variant == 2 {
+            drop(peer);
+        } else {
+            loop {
+                match peer.recv().await {
+                    Ok(Incoming::Frame { performative: Performative::Close(_), .. }) => break,
+                    Ok(_) => {}
+                    Err(e) => return Err(format!("peer: {:?}", e)),
+                }
+            }
+            match variant {
+                1 => {
+                    let _ = peer.send(0, Performative::Close(Close { error: None }), &[]).await;
+                }
+                3 => {
+                    let _ = peer.send(0, Performative::Close(Close { error: Some(scripted_error()) }), &[]).await;
+                }
+                _ => {}
+            }
+            drop(peer);
+        }
+        client.await.map_err(|e| format!("{:?}", e))?
+    })
+}
+
+pub fn check_cut_during_close(variant: u8, r: &str) -> Option<(String, String)> {
+    let what = ["the peer read the close and dropped the stream without answering", "the peer answered the close", "the stream had ended before the close was written", "the peer answered with a close carrying an error"][variant as usize];
+    match variant {
+        1 => (r != "ok").then(|| ("clean-close-reported-as-failure".to_string(), format!("{}: close() returned {}", what, r))),
+        3 => (!(r.starts_with("err:") && r.contains("scripted-condition"))).then(|| ("peer-error-not-reported-by-close".to_string(), format!("{}: close() returned {}", what, r))),
+        _ => {
+            if r == "TIMEOUT" {
+                Some(("hangs:close-on-a-dead-transport".into(), format!("{}: close() did not return within 10 virtual seconds", what)))
+            } else if r == "ok" {
+                Some(("clean-close-reported-although-the-peer-never-closed".into(), format!("{}: close() returned Ok(()) — the failure of the transport is not reported", what)))
+            } else {
+                None
+            }
+        }
+    }
+}
+
 pub fn all_failures() -> Vec<Failure> {
     let mut v = vec![Failure::TransportDrop, Failure::PeerClose(false), Failure::PeerClose(true)];
     for s in 0..2 {
@@ -460,6 +540,23 @@ pub fn main(opts: &Opts) {
     );
     if let Some(path) = &opts.replay {
         let j: J = serde_json::from_str(&std::fs::read_to_string(path).expect("read")).expect("json");
+        if let Some(c) = j.get("cut_during_close") {
+            let v = c.get("variant").and_then(|x| x.as_u64()).unwrap_or(0) as u8;
+            let n = c.get("sessions").and_then(|x| x.as_u64()).unwrap_or(0) as usize;
+            let r = run_cut_during_close(v, n);
+            println!("{:?}", r);
+            match r.as_ref().ok().and_then(|r| check_cut_during_close(v, r)) {
+                Some((k, d)) => {
+                    println!("REPLAY: property violated [{}]: {}", k, d);
+                    std::process::exit(1);
+                }
+                None if r.is_ok() => {
+                    println!("REPLAY: property holds on this scenario");
+                    std::process::exit(0);
+                }
+                None => std::process::exit(1),
+            }
+        }
         if let Some(f) = j.get("failure").and_then(Failure::from_json) {
             std::env::set_var("VERIF_TRACE", "1");
             let case = Case { failure: f, at_ms: j.get("at_ms").and_then(|x| x.as_u64()).unwrap_or(50) };
@@ -489,6 +586,22 @@ pub fn main(opts: &Opts) {
             report.count(&format!("failure_{}", f.to_json().get("kind").and_then(|x| x.as_str()).unwrap_or("")));
             if let Some((key, desc)) = check(&case, &obs) {
                 report.finding(Finding { kind: "violation", key, description: desc, replay: json!({"property": "C14", "module": "failprop", "failure": f.to_json(), "at_ms": at, "in_progress": format!("{:?}", obs.in_progress), "after": format!("{:?}", obs.after), "teardown": format!("{:?}", obs.teardown)}) });
+            }
+        }
+    }
+    // the transport failing while the application closes the connection
+    for variant in 0..4u8 {
+        for sessions in [0usize, 1, 3] {
+            report.evaluations += 1;
+            report.count("cut_during_close_cases");
+            report.nontrivial_case(fnv(&format!("cut-during-close{}/{}", variant, sessions)));
+            match run_cut_during_close(variant, sessions) {
+                Ok(r) => {
+                    if let Some((key, desc)) = check_cut_during_close(variant, &r) {
+                        report.finding(Finding { kind: "violation", key, description: desc, replay: json!({"property": "C14", "module": "failprop", "cut_during_close": {"variant": variant, "sessions": sessions}}) });
+                    }
+                }
+                Err(e) => report.finding(Finding { kind: "violation", key: "scenario-failed".into(), description: e, replay: json!({"property": "C14", "module": "failprop", "cut_during_close": {"variant": variant, "sessions": sessions}}) }),
             }
         }
     }
